@@ -51,11 +51,14 @@ def _modules(case):
                                      lambda: icls(wave=sib, mode=msp), warm_inv)
         return fwd, inv
     with dwtu.default_dtype(dwtu.tdt(case['dtype'])):
+        wa, wr_ = c01.wave_arg(case), c01.wave_arg(case, 'rec')
         if case['dim'] == 1:
-            return (DWT1DForward(J=case['J'], wave=c01.wave_arg(case), mode=msp),
-                    DWT1DInverse(wave=c01.wave_arg(case, 'rec'), mode=msp))
-        return (DWTForward(J=case['J'], wave=c01.wave_arg(case), mode=msp),
-                DWTInverse(wave=c01.wave_arg(case, 'rec'), mode=msp))
+            out = (DWT1DForward(J=case['J'], wave=wa, mode=msp), DWT1DInverse(wave=wr_, mode=msp))
+        else:
+            out = (DWTForward(J=case['J'], wave=wa, mode=msp), DWTInverse(wave=wr_, mode=msp))
+        c01.scribble(wa)
+        c01.scribble(wr_)
+        return out
 
 
 def run_case(case):
